@@ -333,6 +333,7 @@ type lane struct {
 	// project's NTS-KE server, and the keys of the client's previous association
 	ke      *kepeer.Peer
 	old     *keData
+	sc      *client.SCIONClient // non-nil: the client under test is the SCION client (scion_test.go), l.c is unused
 	nocount bool // the running call is meant to fail: it does not count towards "failed"
 }
 
@@ -435,6 +436,11 @@ func (l *lane) startCall() {
 		defer cancel()
 		laddr := &net.UDPAddr{IP: l.ip}
 		raddr := &net.UDPAddr{IP: l.ip, Port: proxyPort}
+		if l.sc != nil {
+			ts, off, err := l.measureSCION(ctx)
+			done <- callResult{ts, off, err}
+			return
+		}
 		ts, off, err := client.MeasureClockOffsetIP(ctx, l.log, l.c, laddr, raddr)
 		done <- callResult{ts, off, err}
 	}()
@@ -693,7 +699,7 @@ loop:
 	if final && l.last.err != nil && strings.HasPrefix(l.last.err.Error(), "PANIC") {
 		return "panic", lg, ""
 	}
-	pv := l.c.VerifPrev()
+	pv := l.verifPrev()
 	nf := l.flt.take()
 	byRet := final && l.last.err == nil && !l.last.ts.IsZero() && in(l.last.ts)
 	byPrev := pv.Reference != "" && pv.CRxTime != (ntp.Time64{}) && in(ntp.TimeFromTime64(pv.CRxTime, seen))
